@@ -731,6 +731,16 @@ twin('c13-painter-nparray', 'C13', SP, 'StaticVisualization1D.drawObjFunction', 
 twin('c13-status-hoisted', 'C13', P, 'Process.Solve',
      '        for listener in self.__listeners:\n            status = self.method.CheckStopCondition()\n            listener.OnMethodStop',
      '        status = self.method.CheckStopCondition()\n        for listener in self.__listeners:\n            listener.OnMethodStop')
+fire('c13-early-return-skips-end', 'C13', P, 'Process.DoGlobalIteration',
+     '            else:\n                newpoint, oldpoint = self.method.CalculateIterationPoint()',
+     '            else:\n                if self.method.CheckStopCondition():\n                    return\n'
+     '                newpoint, oldpoint = self.method.CalculateIterationPoint()', 'R13.3',
+     why='trials made earlier in the batch are never reported')
+twin('c13-early-break-keeps-end', 'C13', P, 'Process.DoGlobalIteration',
+     '            else:\n                newpoint, oldpoint = self.method.CalculateIterationPoint()',
+     '            else:\n                if self.method.CheckStopCondition():\n                    break\n'
+     '                newpoint, oldpoint = self.method.CalculateIterationPoint()',
+     why='break leaves the loop but the notification still happens: C13 is indifferent (C11 objects)')
 
 # ----------------------------------------------------------------------------- C05
 fire('c05-bounds-dropped', 'C05', P, 'Process.DoLocalRefinement', "options={'maxiter': self.localMethodIterationCount}, bounds=bounds)",
